@@ -94,6 +94,10 @@ static void build_ops(void)
 	AF2(A(XA_MARK, 0, 0, NULL, 0, 0, 0), A(XA_DOLLAR, 0, 0, NULL, 0, 0, 0), ',', 0);
 	AF2(A(XA_NUM, 1, 0, NULL, 0, 0, 0), A(XA_NUM, 9, 0, NULL, 0, 0, 0), ',', 0);
 	AF2(A(XA_NUM, 2, 0, NULL, 0, 0, 0), A(XA_FWD, 0, 0, "ax", 0, 0, 0), ';', 0);
+	/* a search that fails stays failed whatever offset follows it */
+	AF1(A(XA_FWD, 0, 0, "zz", 1, 0, -1), 0);
+	AF1(A(XA_BWD, 0, 0, "zz", 1, 0, 1), 0);
+	AF1(A(XA_BWD, 0, 0, "zz", 1, 0, 2), 0);
 	for (i = 0; i < naf; i++) {
 		static const char *texts[] = {"", "x\n", "x\ny\n"};
 		struct xcmd c;
